@@ -115,14 +115,20 @@ Section DnsProofs.
     destruct (q_class q) as [cls|]; [|reflexivity]. destruct (q_type q) as [typ|]; [|reflexivity].
     unfold has_rules in Hr. rewrite <- IH.
     destruct (allow c) as [|a al] eqn:Ea; destruct (deny c) as [|d dl] eqn:Ed; cbn [nel negb andb orb] in *; try discriminate.
-    - (* only deny *) remember (rules_match re_match (d :: dl) cls typ (q_name q)) as D. cbn [rules_match].
+    - (* only deny *) remember (rules_match re_match (d :: dl) cls typ (lower_ascii (q_name q))) as D. cbn [rules_match].
       destruct D; cbn [negb andb orb]; [reflexivity|]. destruct (default_deny c); reflexivity.
-    - (* only allow *) remember (rules_match re_match (a :: al) cls typ (q_name q)) as A. cbn [rules_match].
+    - (* only allow *) remember (rules_match re_match (a :: al) cls typ (lower_ascii (q_name q))) as A. cbn [rules_match].
       destruct A; cbn [negb andb orb]; reflexivity.
-    - (* both *) remember (rules_match re_match (d :: dl) cls typ (q_name q)) as D.
-      remember (rules_match re_match (a :: al) cls typ (q_name q)) as A.
+    - (* both *) remember (rules_match re_match (d :: dl) cls typ (lower_ascii (q_name q))) as D.
+      remember (rules_match re_match (a :: al) cls typ (lower_ascii (q_name q))) as A.
       destruct D; destruct A; cbn [negb andb orb]; try reflexivity; destruct (prefer_allow c); destruct (default_deny c); reflexivity.
   Qed.
+
+  (* the rules see the name only through its lower-case form *)
+  Lemma question_spec_case_insensitive c n1 n2 cl ty : lower_ascii n1 = lower_ascii n2 ->
+    question_spec re_match c {| q_name := n1; q_class := cl; q_type := ty |} =
+    question_spec re_match c {| q_name := n2; q_class := cl; q_type := ty |}.
+  Proof. intro H. unfold question_spec. cbn [q_name q_class q_type]. rewrite H. reflexivity. Qed.
 
   (* ---- C14: reference = "the framed bytes are a well-formed standard query whose questions pass the table" ---- *)
   Definition dns_ref (c : dcfg) (msg : list byte) : Prop :=
